@@ -1,4 +1,4 @@
-#!/bin/sh
+#!/bin/bash
 # The whole sensitivity suite in parallel streams (one per property, STREAMS at a time): hand-written mutants with the
 # repository's own tests (TESTS=1), then every kept seeded change (its suite result was recorded when it was confirmed:
 # seeded/<id>/meta.json).  Writes sensitivity/mutants.txt and sensitivity/seeded.txt (read by tools/fill_design.py).
@@ -12,7 +12,7 @@ for pre in $props; do
   ( TESTS=1 tools/sensitivity.sh $pre > $T/mut-$pre.txt 2>&1
     ALL=1 ONLY_SEEDED=1 tools/sensitivity.sh $pre > $T/seed-$pre.txt 2>&1 ) &
   running=$((running + 1))
-  if [ $running -ge $STREAMS ]; then wait -n 2>/dev/null || wait; running=$((running - 1)); fi
+  if [ $running -ge $STREAMS ]; then wait -n; running=$((running - 1)); fi
 done
 wait
 cat $T/mut-*.txt | grep " prop=" | sort > sensitivity/mutants.txt
